@@ -27,6 +27,9 @@ type Hooks interface {
 	RWUnlock(m *sync.RWMutex)
 	RLock(m *sync.RWMutex)
 	RUnlock(m *sync.RWMutex)
+	TryLock(m *sync.Mutex) bool
+	RWTryLock(m *sync.RWMutex) bool
+	TryRLock(m *sync.RWMutex) bool
 	Go(f func())
 	// Woke is called by a task right after an operation that may have blocked on a
 	// real (uninstrumented) primitive: it parks the task until the scheduler
@@ -111,6 +114,27 @@ func RUnlock(m *sync.RWMutex) {
 		return
 	}
 	m.RUnlock()
+}
+
+func TryLock(m *sync.Mutex) bool {
+	if h := get(); h != nil {
+		return h.TryLock(m)
+	}
+	return m.TryLock()
+}
+
+func RWTryLock(m *sync.RWMutex) bool {
+	if h := get(); h != nil {
+		return h.RWTryLock(m)
+	}
+	return m.TryLock()
+}
+
+func TryRLock(m *sync.RWMutex) bool {
+	if h := get(); h != nil {
+		return h.TryRLock(m)
+	}
+	return m.TryRLock()
 }
 
 // Go starts f as a new goroutine (a new simulated task when called by a task).
